@@ -3,7 +3,8 @@
 Exhaustive configuration product: unit ids (all 0..255 in thorough) x hosted unit
 sets x single/multi x broadcast_enable x ignore_missing_slaves x every framer that
 carries a unit id x every front-end x {write register, write coils, read} and
-two-request sequences (write to unit a, read from unit b).  Every slave context is
+two-request sequences (write to unit a, read from unit b), and writes during which one
+hosted unit's datastore raises (a broadcast is still never answered).  Every slave context is
 wrapped in a counting proxy, so "applied exactly once" and "other units untouched"
 are observed as calls, not only as final values.  Oracle: ref/routing.py.
 """
@@ -21,8 +22,8 @@ HOSTED = [None, (1,), (1, 2), (0, 1), (2, 255), (1, 247)]        # None = single
 class Counting(object):
     """slave context proxy recording which operations reach which unit"""
 
-    def __init__(self, inner, log, unit):
-        self.inner, self.log, self.unit = inner, log, unit
+    def __init__(self, inner, log, unit, fail=False):
+        self.inner, self.log, self.unit, self.fail = inner, log, unit, fail
         self.zero_mode = inner.zero_mode
 
     def validate(self, fx, address, count=1):
@@ -35,6 +36,8 @@ class Counting(object):
 
     def setValues(self, fx, address, values):
         self.log.append((self.unit, 'set'))
+        if self.fail:
+            raise RuntimeError('datastore of unit %d fails' % self.unit)
         return self.inner.setValues(fx, address, values)
 
 
@@ -46,14 +49,14 @@ REQS = {
 }
 
 
-def build(hosted, bc, ign):
+def build(hosted, bc, ign, fail_unit=None):
     reset.control_block()
     log = []
     LAY = scenario.LAY
     if hosted is None:
         st = scenario.unit_state(0)
         real = {0: LAY.build(st)}
-        ctx = servers.server_context(Counting(real[0], log, 0), True)
+        ctx = servers.server_context(Counting(real[0], log, 0, fail_unit == 0), True)
         ref = routing.RefServer(LAY.ref(st), True, bc, ign)
     else:
         real, refs, wrapped = {}, {}, {}
@@ -61,10 +64,40 @@ def build(hosted, bc, ign):
             st = scenario.unit_state(u)
             real[u] = LAY.build(st)
             refs[u] = LAY.ref(st)
-            wrapped[u] = Counting(real[u], log, u)
+            wrapped[u] = Counting(real[u], log, u, fail_unit == u)
         ctx = servers.server_context(wrapped, False)
         ref = routing.RefServer(refs, False, bc, ign)
     return ctx, ref, real, log
+
+
+def run_fault(acc, front, framing, hosted, bc, ign, fail_unit, unit):
+    """a hosted unit's datastore raises while a write is applied: a broadcast is still never answered,
+    a directed write is answered with exception 04"""
+    ctx, ref, real, log = build(hosted, bc, ign, fail_unit)
+    srv = servers.Server(front, framing, ctx, broadcast_enable=bc, ignore_missing_slaves=ign)
+    conn = srv.open()
+    m = REQS['W'](0)
+    writes = conn.run_script([scenario.frame(framing, unit, 0x0101, m)])
+    got = scenario.parse_out(framing, writes)
+    srv.shutdown()
+    acc.inc('transitions')
+    acc.inc('evaluations')
+    wit = dict(front=front, framing=framing, hosted=list(hosted) if hosted else None, bc=bc, ign=ign, fail_unit=fail_unit, steps=[[unit, 'W']])
+    mode = 'single' if hosted is None else 'multi'
+    what = None
+    if bc and unit == 0:
+        if got:
+            what = 'reply-on-broadcast-after-fault'
+    elif unit == fail_unit or hosted is None:
+        want = dict(kind='exc', fc=6, code=4)
+        if len(got) != 1 or scenario.match(framing, got[0], unit, 0x0101, want) is not None:
+            what = 'no-exception-04-after-fault'
+    if srv.escaped:
+        what = 'escape:' + type(srv.escaped[0][1]).__name__
+    if what:
+        acc.violation('C10/%s/%s/%s/bc=%d,ign=%d/%s' % (front, framing, mode, bc, ign, what), wit,
+                      '%s: wrote %r' % (what, [w.hex() for w in writes]), '%s/%s' % (front, framing))
+    return what
 
 
 def run_one(acc, front, framing, hosted, bc, ign, steps, record=True):
@@ -148,6 +181,10 @@ def shard(args):
                     for kind in ('W', 'C', 'R', 'M'):
                         run_one(acc, front, framing, hosted, bc, ign, [(u, kind)])
                         n += 1
+                for fail_unit in ([0] if hosted is None else list(hosted)):
+                    for u in ([0, 1] if hosted is None else sorted(set([0] + list(hosted)))):
+                        run_fault(acc, front, framing, hosted, bc, ign, fail_unit, u)
+                        n += 1
                 for a in seq_units:
                     for b in seq_units:
                         run_one(acc, front, framing, hosted, bc, ign, [(a, 'W'), (b, 'R')])
@@ -175,6 +212,10 @@ def run(tier, seed):
 
 def replay(w):
     acc = Acc()
-    p = run_one(acc, w['front'], w['framing'], tuple(w['hosted']) if w['hosted'] else None, w['bc'], w['ign'],
-                [tuple(s) for s in w['steps']])
+    if 'fail_unit' in w:
+        p = run_fault(acc, w['front'], w['framing'], tuple(w['hosted']) if w['hosted'] else None, w['bc'], w['ign'],
+                      w['fail_unit'], w['steps'][0][0])
+    else:
+        p = run_one(acc, w['front'], w['framing'], tuple(w['hosted']) if w['hosted'] else None, w['bc'], w['ign'],
+                    [tuple(s) for s in w['steps']])
     return bool(p), '\n'.join('%s: %s' % (v['sig'], v['msg']) for v in acc.violations) or 'no violation'
